@@ -21,15 +21,21 @@ def assembleFrom (ss0 : List Stmt) : Outcome Assembly :=
       | some ss2 =>
         match pcrLoop (ss2.length + 1) ss2 with
         | .ok ss3 =>
+          if !orgOK ss3 false then .diag else
           match assignAddrs ss3 0 with
           | .ok ss4 =>
             match fixAll ss4 0 ss4 with
             | .ok ss5 =>
-              match finalSymTab ss5 t with
-              | .ok t' =>
-                let origin := ss5.foldl (fun o s => if s.row.isOrigin then s.pkg.address else o) Value.none
-                let name := ss5.foldl (fun o s => if s.row.isName then some s.operand.text else o) none
-                .ok { stmts := ss5, symtab := t', origin := origin, name := name }
+              match evalSyms ss5 t t with
+              | .ok t1 =>
+                match finalSymTab ss5 t1 with
+                | .ok t' =>
+                  let origin := ss5.foldl (fun o s => if s.row.isOrigin then s.pkg.address else o) Value.none
+                  let name := ss5.foldl (fun o s => if s.row.isName then some s.operand.text else o) none
+                  .ok { stmts := ss5, symtab := t', origin := origin, name := name }
+                | .diag => .diag
+                | .internal => .internal
+                | .diverged => .diverged
               | .diag => .diag
               | .internal => .internal
               | .diverged => .diverged
